@@ -178,6 +178,12 @@ pub fn seeded() -> Vec<(LinearModel, &'static str)> {
     m.add_constraint(vec![1.0, 0.0], Comparison::GreaterOrEqual, 2.0);
     m.set_objective(vec![0.0, 1.0], OptimizationType::Min);
     v.push((m, "seeded-primal-dual-infeasible"));
+    // clarabel: `Solved` with a diverging point on an unbounded model (found by the thorough tier)
+    let mut m = LinearModel::new();
+    m.add_variable("v0", free()); m.add_variable("v1", free()); m.add_variable("v2", free()); m.add_variable("v3", nonneg());
+    m.add_constraint(vec![1.0, -3.0, 3.0, -2.0], Comparison::Equal, 6.0);
+    m.set_objective(vec![0.0, 0.0, -3.0, 2.0], OptimizationType::Min);
+    v.push((m, "seeded-clarabel-diverging"));
     v
 }
 
